@@ -15,7 +15,7 @@ position and every serde(default) removed.  For each of the six languages
     from the source (Option depth and bare default: the generator's ground truth, cross-checked with the
     extracted Spec.C04Spec.c04_file_cells on the syn AST) and the twin's type text at the same position
     ("the marker never changes the underlying type").
-The marker matrix (18 base types x depth 0..2 x 7 default spellings x 4 positions) and the wrapper matrix (10 wrappers x 8
+The marker matrix (19 base types x depth 0..2 x 7 default spellings x 4 positions) and the wrapper matrix (10 wrappers x 8
 placements around / between / inside the Option layers x 4 positions) are enumerated on every run."""
 import json, re
 import vf, ir, irgen, extract, back
@@ -216,7 +216,10 @@ class Prog:
 BASES = [('prim', 'String'), ('prim', 'u32'), ('prim', 'bool'), ('prim', 'f64'), ('prim', 'i8'), ('prim', 'char'), ('prim', 'I54'),
          ('vec', ('prim', 'String'), ''), ('vec', opt(('prim', 'u8')), ''), ('map', ('prim', 'String'), ('prim', 'u32'), ''),
          ('array', ('prim', 'u8'), 3), ('slice', ('prim', 'String')), ('vec', ('vec', ('user', 'Other'), ''), ''),
-         ('prim', '()'), ('user', 'Other'), ('gen', 'Pair', [('prim', 'String'), opt(('prim', 'u32'))]), ('param', 'T'), ('map', ('prim', 'String'), opt(('user', 'Other')), '')]
+         ('prim', '()'), ('user', 'Other'), ('gen', 'Pair', [('prim', 'String'), opt(('prim', 'u32'))]), ('param', 'T'), ('map', ('prim', 'String'), opt(('user', 'Other')), ''),
+         # a type the Python back end translates through helper functions (datetime: Annotated[.., BeforeValidator, PlainSerializer]) - the
+         # optional marker must survive that wrapping (seeded C04_h); an undeclared name everywhere else
+         ('user', 'OffsetDateTime')]
 
 
 class Namer:
@@ -425,6 +428,20 @@ def strip_head(raw, lang):
     if lang == 'scala':
         return (True, raw[7:-1]) if raw.startswith('Option[') and raw.endswith(']') else (False, raw)
     if lang == 'python':
+        if raw.startswith('Annotated[') and raw.endswith(']'):
+            # Annotated[T, BeforeValidator(..), PlainSerializer(..)] (the datetime / bytes helpers): the field's type is T, the rest is metadata;
+            # the marker is read off T and the type without it keeps the metadata, so that it is compared with the twin's type AS A WHOLE
+            # ("the optional marker never changes the underlying translated type")
+            depth, cut = 0, None
+            for i, ch in enumerate(raw[10:-1]):
+                depth += ch in '[(' 
+                depth -= ch in '])'
+                if ch == ',' and depth == 0:
+                    cut = 10 + i
+                    break
+            if cut is not None:
+                mark, inner = strip_head(raw[10:cut].strip(), lang)
+                return mark, f'Annotated[{inner}{raw[cut:]}'
         return (True, raw[9:-1]) if raw.startswith('Optional[') and raw.endswith(']') else (False, raw)
     if lang == 'go':
         return (True, raw[1:]) if raw.startswith('*') else (False, raw)
@@ -531,7 +548,7 @@ def run(chk):
                 '(13 primitives, Vec/HashMap/array/slice/user/generic-instance/generic-parameter, nested) under 0..2 Option layers with stacks of &, Box/Arc/Rc/Cow/Cell/'
                 'RefCell/Mutex/RwLock/Weak around, between and inside the layers, path-qualified or not, and serde(default) absent / bare / merged / split over several '
                 'attributes / non-bare `default = "path"` / typeshare(default); both entries (source through parse, IR through generate_ir), six languages, random '
-                'prefix / package / acronyms / type_mappings / Go no_pointer_slice. The marker matrix (18 base types x depth x 7 spellings x 4 positions) is enumerated every '
+                'prefix / package / acronyms / type_mappings / Go no_pointer_slice. The marker matrix (19 base types x depth x 7 spellings x 4 positions) is enumerated every '
                 'run, for Go also under no_pointer_slice = true (verdict good_C04_go: Option<Vec<T>> is `[]T` + omitempty), plus Go type overrides on named fields '
                 '(verdict good_C04_go_override: the tag part). '
                 'non-trivial = distinct (language, entry, position, depth, default spelling, base type) judged inside dom_C04 with known_C04 = None')
@@ -607,6 +624,50 @@ def judge_rows(chk, tag, lang, entry, cells, rows_p, rows_t, payload, equal):
     return req, meta
 
 
+PY_TRANSLATED = {'OffsetDateTime': 'datetime'}   # Rust type -> Python type that json_translation_for_type (python.rs) knows
+
+
+def python_option_drops_helpers(lang, c, rp, rt):
+    """class of the open finding C04-python-option-drops-helpers: a Python field / struct-variant field whose Rust type is one or more Option
+    layers around a type with a custom JSON translation.  python.rs write_field looks the translation up by the formatted text, which is
+    `Optional[datetime]` there, finds none and prints the bare type: `Optional[datetime] = Field(default=None)`, while the same field without
+    the Option layer is `Annotated[datetime, BeforeValidator(parse_rfc3339), PlainSerializer(serialize_datetime_data)]`."""
+    ty = getattr(c, 'ty', None)
+    if lang != 'python' or ty is None or c.depth < 1 or c.pos not in ('field', 'variant_field'):
+        return False
+    base = ty
+    while base[0] in ('opt', 'ref', 'wrap'):
+        base = base[2] if base[0] == 'wrap' else base[1]
+    if base[0] != 'user' or base[1] not in PY_TRANSLATED:
+        return False
+    py = PY_TRANSLATED[base[1]]
+    bare = py
+    for _ in range(c.depth - 1):
+        bare = f'Optional[{bare}]'
+    return bool(rp[3]) and rp[6] == bare and rt[7].startswith('Annotated[') and rt[7][10:].startswith((py + ',', 'Optional[' + py))
+
+
+def py_plain(t):
+    """a Python type text without the Annotated[.., BeforeValidator(..), PlainSerializer(..)] metadata"""
+    if isinstance(t, str) and t.startswith('Annotated[') and t.endswith(']'):
+        depth = 0
+        for i, ch in enumerate(t[10:-1]):
+            depth += ch in '[('
+            depth -= ch in '])'
+            if ch == ',' and depth == 0:
+                return t[10:10 + i].strip()
+    return t
+
+
+def model_view(lang, rows):
+    """the rows as the MODEL's observation writes them: Spec/C04Readers.v reads the Python member type before the helper functions of a
+    custom JSON translation are wrapped around it (the theorem speaks about the marker and the translated type `datetime`, not about the
+    (de)serialisation helpers); the judgement itself runs on the rows of the real text, helpers included"""
+    if lang != 'python':
+        return rows
+    return [r[:6] + [py_plain(r[6]), py_plain(r[7])] for r in rows]
+
+
 def settle(chk, tag, lang, entry, meta, answers, payload, equal, basekey):
     for (c, rp, rt), a in zip(meta, answers):
         dom, known, good = a[0] == 'true', vf.sx_opt(a[1]), a[2] == 'true'
@@ -624,6 +685,12 @@ def settle(chk, tag, lang, entry, meta, answers, payload, equal, basekey):
         what = (f'{lang} {c.pos} {c.ident}: Rust Option depth {c.depth}, bare serde(default) {c.has_default}; generated: type-level marker {rp[3]}, '
                 f'initialiser/tag marker {rp[4]}, `| null` {rp[5]}, type without marker {rp[6]!r} (as written {rp[7]!r}); the same position with one Option layer '
                 f'and the default removed is written {rt[7]!r}')
+        if known is None and python_option_drops_helpers(lang, c, rp, rt):
+            # the open finding C04-python-option-drops-helpers: decided on the input (Python, Option<..> around a type with a custom JSON
+            # translation) AND on the exact shape of the failure (marker right, bare translated type, twin carries the helpers)
+            if not chk.known('C04-python-option-drops-helpers', what):
+                chk.violation(f'{tag}-{lang}-{entry}-{c.ident}', dict(payload, cell=c.ident, lang=lang, entry=entry, row=rp, twin_row=rt), 'unlisted finding class: ' + what)
+            continue
         if known is None or not equal:
             chk.violation(f'{tag}-{lang}-{entry}-{c.ident}', dict(payload, cell=c.ident, lang=lang, entry=entry, row=rp, twin_row=rt), what)
         elif not chk.known(known, what):
@@ -688,7 +755,7 @@ def judge_programs(chk, progs):
                 if prob or prob_t:
                     chk.unreadable(lang, dict(payload, entry=entry, text=rp['ok'][:3000]), prob + prob_t)
                     continue
-                equal = m[0] == 'ok' and m[1] == rows_p
+                equal = m[0] == 'ok' and m[1] == model_view(lang, rows_p)
                 if not equal:
                     chk.corr.append(dict(payload, lang=lang, entry=entry, impl_rows=rows_p, model_rows=m[1] if m[0] == 'ok' else m[0]))
                 req, meta = judge_rows(chk, f'{kind}{n}', lang, entry, cells, rows_p, rows_t, payload, equal)
